@@ -386,6 +386,19 @@ def gen_history(seed):
         ops.append({"op": "add", "rxns": [gen_reaction(rng, cfg, ids) for _ in range(rng.randint(2, 5))]})
         ops.append({"op": "fit", "x": None, "sigma_min": 0.25})
         ops.append({"op": "lik", "x": None, "sigma_min": 0.25})
+    # exact constraints (noise exactly 0) are kept to two per session: more of them than the
+    # model has control points make the training matrix singular whatever the code does
+    nzero = 0
+    for o in ops:
+        if o["op"] != "add":
+            continue
+        for _, rxn in o["rxns"]:
+            exact = (rxn.get("noise") == 0.0 or (rxn.get("noise") is None and rxn.get("noise_factor") == 0)) and rxn.get("noise_rel_factor") is None
+            if exact:
+                nzero += 1
+                if nzero > 2:
+                    rxn.pop("noise_factor", None)
+                    rxn["noise"] = 0.02
     # systems stored without correlation covariances must be stored again before a mode-2
     # reaction uses them (the documented workflow); insert those stores
     fixed = []
